@@ -178,6 +178,7 @@ func explore(c *core.Ctx, g *Group, alone map[string]string, threads [][]string,
 }
 
 func run(c *core.Ctx) {
+	Pause = sched.Yield // slow consumers yield to the controlled scheduler
 	groups := Groups()
 	if c.Shard == len(groups)*subShards {
 		racePass(c)
@@ -321,6 +322,7 @@ func clip(s string) string {
 // ------------------------------------------------------------------ replay
 
 func replay(c *core.Ctx, raw json.RawMessage) {
+	Pause = sched.Yield
 	var cs caseT
 	if err := json.Unmarshal(raw, &cs); err != nil {
 		c.HarnessError("bad case: %v", err)
